@@ -127,8 +127,16 @@ def run(ctx):
                 bad += [p for p in created if p.endswith('/')]
                 if escaped:
                     # other processes also create files in /tmp: only names that come from this catalogue count
-                    names = [f.shown_name() for (_, _, _, f) in d.all_files()]
-                    mine = [p for p in escaped if any(nm and nm.replace(b'/', b'_').decode('latin-1') in os.path.basename(p) for nm in names)]
+                    # other processes create files in /tmp too: only a file whose name is exactly what this catalogue could produce counts
+                    cand = set()
+                    for (_, _, _, f) in d.all_files():
+                        nm_ = f.shown_name().decode('latin-1')
+                        dn_ = chr(f.dir & 0x7F)
+                        for leaf in (nm_, dn_ + '.' + nm_, '.' + nm_, nm_.replace('/', '_'), (dn_ + '.' + nm_).replace('/', '_')):
+                            leaf = leaf.split('/')[-1]
+                            if leaf:
+                                cand.update([leaf, leaf + '.inf'])
+                    mine = [p for p in escaped if os.path.basename(p) in cand]
                     for p in mine:
                         try:
                             os.unlink(p)
@@ -144,7 +152,8 @@ def run(ctx):
                     ctx.violation(key, '`%s` created %s (destination %s)' % (' '.join(cmd), bad[:3], dest), rp)
         # a catalogue entry named like the image itself, extracted into the directory that holds the image (also through a
         # symbolic link and another spelling of the path): the image must survive
-        for k2, (entry, how) in enumerate([(b'X.ssd', 'plain'), (b'X.ssd', 'dotdot'), (b'LNK', 'symlink'), (b'X.ssd', 'unused-named')]):
+        for k2, (entry, how) in enumerate([(b'X.ssd', 'plain'), (b'X.ssd', 'dotdot'), (b'LNK', 'symlink'), (b'X.ssd', 'unused-named'), (b'X.ssd', 'ui-after'),
+                                           (b'X.ssd', 'dir-after'), (b'X.ssd', 'two-images'), (b'X.ssd', 'verbose-after')]):
             f0 = discs.AbsFile(0x24, entry, False, 0, 0, 3, b'payload')
             f1 = discs.AbsFile(0x24, b'OTHER', False, 0, 0, 2, b'other')
             d = discs.AbsDisc('dfs', 40, 10)
@@ -157,7 +166,10 @@ def run(ctx):
             if how == 'symlink':
                 os.symlink('X.ssd', os.path.join(sb, 'w', 'LNK'))
             argv = {'plain': ['--file', 'w/X.ssd', 'extract-files', 'w'], 'dotdot': ['--file', 'w/../w/X.ssd', 'extract-files', 'w/'],
-                    'symlink': ['--file', 'w/X.ssd', 'extract-files', 'w'], 'unused-named': ['--file', 'w/X.ssd', 'extract-unused', 'w']}[how]
+                    'symlink': ['--file', 'w/X.ssd', 'extract-files', 'w'], 'unused-named': ['--file', 'w/X.ssd', 'extract-unused', 'w'],
+                    'ui-after': ['--file', 'w/X.ssd', '--ui', 'acorn', 'extract-files', 'w'], 'dir-after': ['--file', 'w/X.ssd', '--dir', '$', '--drive', '0', 'extract-files', 'w'],
+                    'two-images': ['--file', 'w/X.ssd', '--drive-first', '--file', 'w/X.ssd', '--ui', 'watford', 'extract-files', 'w/'],
+                    'verbose-after': ['--file', 'w/X.ssd', '--verbose', '--show-config', 'extract-files', 'w']}[how]
             before = snapshot(sb)
             rc, so, se = vlib.run_cmd([impl['dfs']] + argv, cwd=sb, timeout=30)
             after = snapshot(sb)
@@ -167,6 +179,41 @@ def run(ctx):
             if after.get('w/X.ssd') != before.get('w/X.ssd'):
                 ctx.violation('image-altered', '`%s` altered the image it was reading (%s): exit %d, stderr %r' % (' '.join(argv), how, rc, se[:120]),
                               {'argv': argv, 'cwd': 'sandbox', 'image_hex': img.hex(), 'exit': rc, 'stderr': se[-300:].decode('latin-1')})
+        # a reader that goes away early (dfs ... | head -1): whatever dfs keeps in temporary storage must not be left behind
+        import gzip as _gz
+        import signal as _sig
+        import subprocess as _sp
+        big = discs.AbsFile(0x24, b'BIG', False, 0, 0, 2, (b'line of text\r' * 11000)[:140000])
+        dg = discs.AbsDisc('dfs', 80, 10)
+        dg.cats = [discs.AbsCat(b'PIPE', 0, 0, 800, [big])]
+        gimg = dg.encode(lambda n: bytes(n))
+        for k3, (fname, content, argv_tail) in enumerate([('g.ssd.gz', _gz.compress(gimg), ['type', 'BIG']), ('g.ssd.gz', _gz.compress(gimg), ['dump', 'BIG']),
+                                                          ('g.ssd', gimg, ['type', 'BIG'])]):
+            sb = os.path.join(root, 'pipe%d' % k3)
+            os.makedirs(os.path.join(sb, 'tmpdir'))
+            open(os.path.join(sb, fname), 'wb').write(content)
+            before = snapshot(sb)
+            out_before = outside_listing()
+            env = dict(os.environ)
+            env['TMPDIR'] = os.path.join(sb, 'tmpdir')
+            env['ASAN_OPTIONS'] = 'detect_leaks=0'
+            rd, wr = os.pipe()
+            os.close(rd)       # nobody reads: the first flush gets SIGPIPE (default action: the process dies)
+            p_ = _sp.Popen([impl['dfs'], '--file', fname] + argv_tail, cwd=sb, stdout=wr, stderr=_sp.DEVNULL, env=env,
+                           preexec_fn=lambda: _sig.signal(_sig.SIGPIPE, _sig.SIG_DFL))
+            os.close(wr)
+            try:
+                p_.wait(timeout=60)
+            except _sp.TimeoutExpired:
+                p_.kill()
+            after = snapshot(sb)
+            left = sorted(p for p in after if p not in before) + sorted(p for p in outside_listing() - out_before if 'dfs' in os.path.basename(p).lower())
+            ctx.oracle_cases += 1
+            ctx.count('reader-gone.' + fname.split('.', 1)[1])
+            ctx.case(('pipe', k3), True, sample={'cmd': argv_tail, 'image': fname, 'exit': p_.returncode})
+            if left:
+                ctx.violation('temporary-file-left-behind', '`dfs --file %s %s | (reader exits)` left %s behind' % (fname, ' '.join(argv_tail), left[:3]),
+                              {'argv': ['--file', fname] + argv_tail, 'exit': p_.returncode, 'left': left[:10]})
     finally:
         shutil.rmtree(root, ignore_errors=True)
 
